@@ -401,11 +401,18 @@ def edit_constant(parameterized):
     try:
         yield
     finally:
+        failure = None
         for pobj in updated:
-            pobj.constant = True
-            for copied in _unlocked_constants.pop(id(pobj), ()):
-                copied.constant = True
-                _unlocked_constants.pop(id(copied), None)
+            for relock in (pobj, *_unlocked_constants.pop(id(pobj), ())):
+                _unlocked_constants.pop(id(relock), None)
+                try:
+                    relock.constant = True
+                except Exception as e:
+                    # a watcher of the attribute raised: the others are
+                    # locked again all the same
+                    failure = failure or e
+        if failure is not None:
+            raise failure
 
 
 # Parameter objects currently unlocked by edit_constant (by id) and the copies
